@@ -189,6 +189,21 @@ void Gen::fill(char* s, size_t n) {
 				if (auto sp = dynamic_cast<NiSkinPartition*>(obj)) {
 					if (lastAddr == &sp->vertexSize) { c = 4 * (1 + rng.below(6)); put(&c, n, o); return; }
 				}
+				if (auto sits = dynamic_cast<BSSubIndexTriShape*>(obj)) {
+					// FO4 segmentation tables must be mutually consistent (sub-segment records are indexed by running count):
+					// total = segments + sum of sub-segment counts  (reader precondition of GetSegmentation, DESIGN 5)
+					struct Peek : BSSubIndexTriShape { using BSSubIndexTriShape::segmentation; };
+					auto& sg = sits->*(&Peek::segmentation);
+					if (lastAddr == &sg.numSegments) { c = count(); sitsSegs = (uint32_t)c; put(&c, n, o); return; }
+					if (lastAddr == &sg.numTotalSegments) { sitsSubsLeft = sitsSegs ? rng.below(4) : 0; c = sitsSegs + sitsSubsLeft; put(&c, n, o); return; }
+					for (size_t i = 0; i < sg.segments.size(); i++)
+						if (lastAddr == &sg.segments[i].numSubSegments) {
+							c = (i + 1 == sg.segments.size()) ? sitsSubsLeft : rng.below(sitsSubsLeft + 1);
+							sitsSubsLeft -= (uint32_t)c;
+							put(&c, n, o);
+							return;
+						}
+				}
 				if (n == 1 && blockName == "BSGeometry") {
 					// mesh-present bytes must be prefix-contiguous (reader precondition, see DESIGN 5)
 					uint8_t b = sticky0 ? 0 : (rng.below(3) != 0);
